@@ -7,12 +7,28 @@ use crate::props::normalize_fir;
 use rtcp_types::prelude::*;
 use rtcp_types::*;
 
-fn out(w: &dyn RtcpPacketWriter) -> Result<Vec<u8>, RtcpWriteError> {
-    let n = w.calculate_size()?;
-    let mut buf = vec![0x5au8; n];
-    let m = w.write_into_unchecked(&mut buf);
-    buf.truncate(m);
-    Ok(buf)
+/// outcome of one route: bytes, builder error, or "panicked" (a panic is C06's business; for C20 it only matters that
+/// both routes behave alike)
+#[derive(Debug, PartialEq)]
+enum Out {
+    Bytes(Vec<u8>),
+    Error(RtcpWriteError),
+    Panicked,
+}
+
+fn out(w: &dyn RtcpPacketWriter) -> Out {
+    let r = std::panic::catch_unwind(std::panic::AssertUnwindSafe(|| -> Result<Vec<u8>, RtcpWriteError> {
+        let n = w.calculate_size()?;
+        let mut buf = vec![0x5au8; n];
+        let m = w.write_into_unchecked(&mut buf);
+        buf.truncate(m);
+        Ok(buf)
+    }));
+    match r {
+        Ok(Ok(b)) => Out::Bytes(b),
+        Ok(Err(e)) => Out::Error(e),
+        Err(_) => Out::Panicked,
+    }
 }
 
 fn fb_alt<F: FciBuilder<'static> + 'static, R>(fb: F, transport: bool, sender: u32, media: u32, padding: u8, wrap: u8, f: &mut dyn FnMut(&dyn RtcpPacketWriter) -> R) -> R {
@@ -178,17 +194,25 @@ pub fn c20(cfg: &Cfg) -> Result<(), String> {
         let other = alt(cfg, wrap, &mut |w: &dyn RtcpPacketWriter| out(w));
         let route = ["reordered / repeated / owned setters", "PacketBuilder wrapper", "one-member compound"][wrap as usize];
         match (&base, &other) {
-            (Ok(a), Ok(b)) => {
+            (Out::Bytes(a), Out::Bytes(b)) => {
                 if normalize_fir(a) != normalize_fir(b) {
                     return Err(format!("{}: bytes differ: {} vs {}", route, crate::json::hex(a), crate::json::hex(b)));
                 }
             }
-            (Err(a), Err(b)) => {
+            (Out::Error(a), Out::Error(b)) => {
                 if a != b {
                     return Err(format!("{}: errors differ: {:?} vs {:?}", route, a, b));
                 }
             }
-            (a, b) => return Err(format!("{}: outcome differs: {:?} vs {:?}", route, a.as_ref().map(|x| x.len()), b.as_ref().map(|x| x.len()))),
+            (Out::Panicked, Out::Panicked) => {}
+            (a, b) => {
+                let short = |o: &Out| match o {
+                    Out::Bytes(b) => format!("{} bytes", b.len()),
+                    Out::Error(e) => format!("{:?}", e),
+                    Out::Panicked => "panic".to_string(),
+                };
+                return Err(format!("{}: outcome differs: {} vs {}", route, short(a), short(b)));
+            }
         }
     }
     Ok(())
